@@ -649,6 +649,19 @@ fn string_from_utf8''')]},
      'edits': [(VAL, "            (Value::ObjFiber(first), Value::ObjFiber(second)) => *first == *second,\n", "")]},
     {'name': 'B12 add_constant searches the table by position first', 'prop': 'C04', 'expect': 'B12 / add_constant',
      'edits': [(CHUNK, "        let new_index = self.constants.len();\n        let mut new_entry = false;", "        if let Value::ObjFunction(f) = value {\n            if let Some(i) = self.constants.iter().position(|c| matches!(c, Value::ObjFunction(g) if g.chunk.code == f.chunk.code)) {\n                return i;\n            }\n        }\n        let new_index = self.constants.len();\n        let mut new_entry = false;")]},
+    # ---- rules of round 10 ---------------------------------------------------------------------------------------------------
+    {'name': 'T2 an open interpolation at the end of the input is answered with an error token for ever', 'prop': 'C03', 'expect': 'T2 / scan_token: at the end of the input',
+     'edits': [(SCAN, "        if self.is_at_end() {\n            return self.make_token(TokenKind::Eof);\n        }\n\n        let c = self.advance();",
+                "        if self.is_at_end() {\n            if !self.parantheses.is_empty() {\n                return self.error_token(\"Unterminated string interpolation.\");\n            }\n            return self.make_token(TokenKind::Eof);\n        }\n\n        let c = self.advance();")]},
+    {'name': 'B13 JumpIfStopIter pops the marker on its direct-class path only', 'prop': 'C04', 'expect': 'B13 / vm::Vm::jump_if_stop_iter',
+     'edits': [(VM, "                if current == stop_iter_class {\n                    self.ip = unsafe { self.ip.offset(offset as isize) };\n                    break;\n                }",
+                "                if current == stop_iter_class {\n                    self.ip = unsafe { self.ip.offset(offset as isize) };\n                    if current == instance.borrow().class {\n                        self.pop();\n                        self.push(Value::None);\n                        self.pop();\n                    }\n                    break;\n                }")]},
+    {'name': 'I6 the intern table refuses to look long texts up', 'prop': 'C11', 'expect': 'I6 / ObjStringStore::get',
+     'edits': [(VM, "        pub(super) fn get(&self, key: (u64, &str)) -> Option<&Root<ObjString>> {\n", "        pub(super) fn get(&self, key: (u64, &str)) -> Option<&Root<ObjString>> {\n            if key.1.len() > 4096 {\n                return None;\n            }\n")]},
+    {'name': 'L15 add_message skips empty lines', 'prop': 'C17', 'expect': 'L15 / add_message',
+     'edits': [('yarel/src/error.rs', "        self.messages.push(String::from(message));", "        if message.is_empty() {\n            return;\n        }\n        self.messages.push(String::from(message));")]},
+    {'name': 'L14 the command line trims the script before interpreting it', 'prop': 'C17', 'expect': 'L14 / yarel_cli::run_file',
+     'edits': [('yarel-cli/src/main.rs', "        Ok(contents) => vm::interpret(vm, contents, None),", "        Ok(contents) => vm::interpret(vm, contents.trim_start().to_string(), None),")]},
 ]
 
 BENIGN = [
